@@ -13,7 +13,11 @@ explicit uid list minus the dead), not whatever uid array `MixingPool.step` happ
 """
 import numpy as np
 
-LAMBDAS = ('male', 'female', 'under30', 'over30')
+LAMBDAS = ('male', 'female', 'under30', 'over30',
+           # round 6: callables in the documented style `lambda sim: sim.people.female`, returning a BoolArr (not uids); some
+           # denote a group that has NO member (a band nobody is in; infants of a population without births after a year)
+           'b_male', 'b_female', 'b_under30', 'b_over30', 'b_nobody', 'b_infants', 'nobody')
+ORDERS = ('desc', 'shuf', 'ilv')      # round 6: explicit uid lists are given in ANY order (users concatenate, sample, sort by age)
 
 
 def is_age(spec):
@@ -46,7 +50,22 @@ def mk_group(spec, n_agents, shared, groups_callable):
 
 def uid_range(name, n_agents):
     n = int(n_agents or 40)
-    return dict(uids_lo=(0, n // 2), uids_hi=(n // 2, n), uids_mid=(n // 4, 3 * n // 4))[name]
+    base = '_'.join(name.split('_')[:2])
+    return dict(uids_lo=(0, n // 2), uids_hi=(n // 2, n), uids_mid=(n // 4, 3 * n // 4))[base]
+
+
+def declared_uids(name, n_agents):
+    """ the explicit uid list a spec `uids_<lo|hi|mid>[_desc|_shuf|_ilv]` declares, IN THE ORDER the user lists it:
+        ascending (default), descending, a fixed shuffle, or interleaved (even positions first, then odd ones) """
+    lo, hi = uid_range(name, n_agents)
+    a = np.arange(lo, hi)
+    parts = name.split('_')
+    order = parts[2] if len(parts) > 2 else None
+    if order is None: return a
+    if order == 'desc': return a[::-1].copy()
+    if order == 'ilv': return np.concatenate([a[1::2], a[0::2]])
+    if order == 'shuf': return a[np.random.RandomState(len(a) * 7 + lo).permutation(len(a))]
+    raise ValueError(f'unknown uid order in {name!r}')
 
 
 def pools_groups(n):
@@ -111,13 +130,14 @@ def expected_group(spec, ppl, n_agents=None):
         if hi is not None:
             m = m & (a < hi)
         return au[m]
-    if spec == 'male': return au[~ppl['female'][au]]
-    if spec == 'female': return au[ppl['female'][au]]
-    if spec == 'under30': return au[ppl['age'][au] < 30]
-    if spec == 'over30': return au[ppl['age'][au] >= 30]
+    if spec in ('male', 'b_male'): return au[~ppl['female'][au]]
+    if spec in ('female', 'b_female'): return au[ppl['female'][au]]
+    if spec in ('under30', 'b_under30'): return au[ppl['age'][au] < 30]
+    if spec in ('over30', 'b_over30'): return au[ppl['age'][au] >= 30]
+    if spec in ('nobody', 'b_nobody'): return au[ppl['age'][au] >= 500]
+    if spec == 'b_infants': return au[ppl['age'][au] < 1]
     if isinstance(spec, str) and spec.startswith('uids_'):
-        lo, hi = uid_range(spec, n_agents)
-        decl = np.arange(lo, hi)
+        decl = declared_uids(spec, n_agents)
         return decl[np.isin(decl, au)]
     raise ValueError(f'unknown group spec {spec!r}')
 
